@@ -325,9 +325,28 @@ def run(tier):
     # (4) field TYPE names: accepted only if whitelisted (optionally with one []); resolutions stay inside the field-type package
     from flow.record.whitelist import WHITELIST
 
+    # every class that can be reached by a dotted name under the field-type package -- whitelisted or not -- in plain
+    # and in list form
+    import inspect, pkgutil
+
+    import flow.record.fieldtypes as _ftpkg
+
+    reachable = set()
+    mods = [("", _ftpkg)]
+    for mi in pkgutil.walk_packages(_ftpkg.__path__, _ftpkg.__name__ + "."):
+        try:
+            mods.append((mi.name[len(_ftpkg.__name__) + 1:] + ".", importlib.import_module(mi.name)))
+        except Exception:
+            pass
+    for prefix, mod in mods:
+        for nm, obj in vars(mod).items():
+            if inspect.isclass(obj) and not nm.startswith("_"):
+                reachable.add(prefix + nm)
+    type_candidates = TYPE_CANDIDATES + sorted(x for t in reachable for x in (t, t + "[]") if x not in TYPE_CANDIDATES)
+    ctx.extra["reachable_class_names_offered_as_field_types"] = len(reachable)
     importlib.import_module = ispy
     try:
-        for tn in TYPE_CANDIDATES:
+        for tn in type_candidates:
             # alone; and shadowed by / shadowing another declaration of the SAME field name with a whitelisted type
             for path, shape in [(p, s) for p in ("ctor", "frame") for s in ("alone", "dup-first", "dup-last", "dup-middle")]:
                 ispy.names.clear()
